@@ -197,13 +197,17 @@ theorem runPassDir_PGid (p : PassT) (c : Ctx) (fuel : Nat) (ar : Bool) (h : PGid
           · exact h
 
 theorem runPhase_PGid (passes : Array PassT) (bPass : Nat) (c : Ctx) (lo hi : Nat) (dobidi : Bool) (fuel : Nat) (h : PGid N K c)
-    {c' : Ctx} (e : runPhase passes bPass c lo hi dobidi fuel = .ok (some c')) : PGid N K c' := by
-  refine runPhase_ind (PGid N K) passes bPass lo hi dobidi fuel
+    {c' : Ctx} (e : runPhase passes bPass c lo hi dobidi fuel 0 = .ok (some c')) : PGid N K c' := by
+  refine runPhase_ind (PGid N K) passes bPass lo hi dobidi fuel 0
     (fun ar k _ _ c1 c2 h1 e1 => runPassDir_PGid hN hK _ c1 fuel ar h1 e1) (fun x l hx => ⟨hx.1, hx.2⟩) (fun x hx => ?_) c h e
+  -- a font without a mirror attribute: the bidi step only turns the stream
+  refine ⟨(bidiStep_classes x 0).trans hx.1, ?_⟩
   unfold bidiStep
+  rw [if_neg (fun hc => hc.1 rfl)]
+  unfold turnStep
   split
-  · exact ⟨hx.1, reverse_gid _ _ hx.2⟩
-  · exact hx
+  · exact reverse_gid _ _ hx.2
+  · exact hx.2
 
 end engine
 
@@ -273,7 +277,7 @@ theorem reassoc_gid {N : Nat} {seg seg' : Seg} {n : Nat} {ci : List Assoc.CI} (h
 
 /-- **C03, glyph-id clause, whole pipeline.**  On a font whose cmap and class map name only glyphs below `N`, whatever its passes, rules
 and action programs and whatever the text, every slot record of a segment the modelled pipeline returns has a glyph id below `N`. -/
-theorem shape_gid {N : Nat} (hN : 0 < N) (font : Font) (hcm : ∀ u, font.cmap u < N) (hK : ClassesOK N font.classes)
+theorem shape_gid {N : Nat} (hN : 0 < N) (font : Font) (hcm : ∀ u, font.cmap u < N) (hK : ClassesOK N font.classes) (hM : font.aMirror = 0)
     (text : List Nat) (fuel : Nat) (dir : Nat) {c : Ctx} {ci : List Assoc.CI}
     (e : shape font text fuel dir = .ok (some (c, ci))) : GidOK N c.seg := by
   unfold shape at e
@@ -289,6 +293,11 @@ theorem shape_gid {N : Nat} (hN : 0 < N) (font : Font) (hcm : ∀ u, font.cmap u
     · cases e
     · cases e
     · rename_i c1 h1
+      rw [hM] at h1
+      have hsm : startMirror font (initCtx font text dir) = initCtx font text dir := by
+        unfold startMirror
+        rw [if_neg (fun hc => hc.2.2 hM)]
+      rw [hsm] at h1
       have w0 : PGid N font.classes (initCtx font text dir) := ⟨rfl, initSeg_gid hN font hcm text dir⟩
       have w1 := runPhase_PGid hN hK _ _ _ _ _ _ _ w0 h1
       split at e
@@ -299,20 +308,21 @@ theorem shape_gid {N : Nat} (hN : 0 < N) (font : Font) (hcm : ∀ u, font.cmap u
         · cases e
         · cases e
         · rename_i c2 h2
+          rw [hM] at h2
           simp only [Except.ok.injEq, Option.some.injEq, Prod.mk.injEq] at e
           rw [← e.1]
           exact (runPhase_PGid hN hK _ _ _ _ _ _ _ (show PGid N font.classes (c1.withSeg seg') from ⟨w1.1, w2⟩) h2).2
 
 /-! ## the hypothesis as a test that can be run -/
 
-/-- the class map names only glyphs below `N`, and so does a cmap whose values do not exceed `cmapMax` -/
+/-- the class map names only glyphs below `N`, so does a cmap whose values do not exceed `cmapMax`, and the font has no mirror attribute -/
 def gidHypCheck (font : Font) (N cmapMax : Nat) : Bool :=
-  decide (cmapMax < N) && font.classes.all fun l => l.all fun g => decide (g < N)
+  decide (cmapMax < N) && decide (font.aMirror = 0) && font.classes.all fun l => l.all fun g => decide (g < N)
 
-theorem gidHypCheck_spec {font : Font} {N cmapMax : Nat} (h : gidHypCheck font N cmapMax = true) : cmapMax < N ∧ ClassesOK N font.classes := by
+theorem gidHypCheck_spec {font : Font} {N cmapMax : Nat} (h : gidHypCheck font N cmapMax = true) : cmapMax < N ∧ font.aMirror = 0 ∧ ClassesOK N font.classes := by
   unfold gidHypCheck at h
-  rw [Bool.and_eq_true, decide_eq_true_eq] at h
-  refine ⟨h.1, fun l hl g hg => ?_⟩
+  rw [Bool.and_eq_true, Bool.and_eq_true, decide_eq_true_eq, decide_eq_true_eq] at h
+  refine ⟨h.1.1, h.1.2, fun l hl g hg => ?_⟩
   have := (Array.all_eq_true_iff_forall_mem.1 h.2) l hl
   have := (List.all_eq_true.1 this) g hg
   simpa using this
